@@ -180,6 +180,17 @@ def fcmp(pred, a, b):
     return mk('fcmp', (a, b), 'B', p)
 
 
+def biteq(a, b):
+    """bit-for-bit equality of two doubles (memcmp): distinguishes +0 and -0; in the exact-real domain it degenerates to ==.  Concrete operands are
+    compared as IEEE doubles"""
+    if _isc(a) and _isc(b):
+        import struct
+        return struct.pack('<d', float(a)) == struct.pack('<d', float(b))
+    if a is b:
+        return True
+    return mk('biteq', (a, b), 'B')
+
+
 def bnot(c):
     if _isc(c):
         return not c
@@ -454,6 +465,8 @@ def evaluate(t, env, real=False):
             p = n.aux
             v = {'eq': a[0] == a[1], 'ne': a[0] != a[1], 'lt': a[0] < a[1], 'le': a[0] <= a[1],
                  'gt': a[0] > a[1], 'ge': a[0] >= a[1]}[p]
+        elif op == 'biteq':
+            v = biteq(a[0], a[1]) if not real else a[0] == a[1]
         elif op == 'not':
             v = not a[0]
         elif op == 'and':
@@ -747,6 +760,8 @@ def rebuild(t, choose):
             r = fabs_(a[0])
         elif op == 'fcmp':
             r = fcmp({'eq': 'oeq', 'ne': 'one', 'lt': 'olt', 'le': 'ole', 'gt': 'ogt', 'ge': 'oge'}[n.aux], a[0], a[1])
+        elif op == 'biteq':
+            r = biteq(a[0], a[1])
         elif op == 'not':
             r = bnot(a[0])
         elif op == 'and':
